@@ -59,7 +59,7 @@ def _sanitize_attrs_nc(dt: xr.DataTree) -> xr.DataTree:
 
 
 def _should_desanitize(attr: Any) -> bool:
-    if isinstance(attr, str):
+    if isinstance(attr, str) and attr:
         if (
             (attr[0] == "{" and attr[-1] == "}")
             or (attr[0] == "[" and attr[-1] == "]")
@@ -70,14 +70,22 @@ def _should_desanitize(attr: Any) -> bool:
     return False
 
 
+def _desanitize_attr(attr: str) -> Any:
+    """Evaluate a sanitized attr; a string that only looks like a literal stays a string."""
+    try:
+        return literal_eval(attr)
+    except (ValueError, SyntaxError):
+        return attr
+
+
 def _desanitize_attrs_nc(dt: xr.DataTree) -> xr.DataTree:
     """Desanitize both node-level and variable-level attrs from strings for netcdf."""
     for node in dt.subtree:
         for key, attr in node.attrs.items():
             if _should_desanitize(attr):
-                node.attrs[key] = literal_eval(attr)
+                node.attrs[key] = _desanitize_attr(attr)
         for v in node.variables:
             for key, attr in node[v].attrs.items():
                 if _should_desanitize(attr):
-                    node[v].attrs[key] = literal_eval(attr)
+                    node[v].attrs[key] = _desanitize_attr(attr)
     return dt
